@@ -171,8 +171,13 @@ func monitorTxn(cf *Config, t *Txn, r *TxnResult) []c.Hit {
 			"handling a transaction on an accepted configuration finishes with actions or an error",
 			"the engine process died: "+r.Text)
 	case "timeout":
-		add("accepted-unsafe:hang", "handling a transaction finishes",
-			fmt.Sprintf("no result within %v", stepTimeout))
+		if strings.HasPrefix(r.Text, stuckPrefix) { // the child's watchdog names the place
+			add("accepted-unsafe:hang:"+strings.TrimPrefix(r.Text, stuckPrefix), "handling a transaction finishes",
+				fmt.Sprintf("no result within %v, the transaction is blocked in %s", txnWatchdog, strings.TrimPrefix(r.Text, stuckPrefix)))
+		} else {
+			add("accepted-unsafe:hang", "handling a transaction finishes",
+				fmt.Sprintf("no result within %v", stepTimeout))
+		}
 	case "panic":
 		add("panic:"+panicWhere(r.Text), "handling a transaction never panics", r.Text)
 	case "ok", "error":
